@@ -47,6 +47,12 @@ def main(argv):
             return 1
         print("replay did not reproduce the recorded violation")
         return 0
+    if cmd == "_history":
+        import json
+
+        ok, digest, msg = runner.run_history(argv[1], argv[2], int(argv[3]), json.loads(argv[5]), argv[4])
+        print(json.dumps([bool(ok), digest, msg]))
+        return 0
     if cmd == "_digests":
         import json
         from . import selftest
